@@ -45,6 +45,12 @@ try:
     outd = '/verif/selftest/benign'; os.makedirs(outd, exist_ok=True)
     base = '%s/%s_%s' % (outd, a.prop, a.name or a.which)
     open(base + '.diff', 'w').write(newdiff)
+    # keep the sanity program (one per property and batch) so that tools/normcheck.py can run it on the normalised sources later,
+    # and the agent's equivalence argument
+    sd = outd + '/sanity'; os.makedirs(sd, exist_ok=True)
+    shutil.copy(sanity, '%s/%s_%s.py' % (sd, a.prop, (a.name or a.which)[:-1]))
+    nf = os.path.join(src, 'notes_%s.md' % a.which)
+    if os.path.exists(nf) and not a.why: a.why = open(nf).read()[:1500]
     json.dump({'property': a.prop, 'variant': a.name or a.which, 'files': files, 'why_equivalent': a.why,
                'base_commit': sh('git -C /repo rev-parse --short HEAD').stdout.strip(), 'confirmed': time.strftime('%Y-%m-%d %H:%M'),
                'what_i_ran': [{'step': s, 'cmd': c, 'rc': rc_, 'tail': t} for s, c, rc_, t in ran]}, open(base + '.json', 'w'), indent=1)
